@@ -16,8 +16,9 @@ Case = {'ops': [...], optional 'auto': true, 'friends0': [u...], 'offline': 'dro
     ['gate', u, send_outcome, resp_outcome, m]   release whatever network call u's worker is parked in
                                              (resp_outcome 'silence' = let 10 s pass instead)
     ['adv', seconds]                      virtual time passes
-    ['close']                             ConnectionStateChangedEvent(ServerConnection, CLOSED), then (what the
-                                          client's own CLOSED listener does) SessionDestroyedEvent when a session exists
+    ['close'] | ['close', reason]         ConnectionStateChangedEvent(ServerConnection, CLOSED[, CloseReason[reason]]), then
+                                          (what the client's own CLOSED listener does) SessionDestroyedEvent when a session
+                                          exists
   the owners of the reasons (a case that uses any of them runs with the real TransferManager):
     ['login']                             SessionInitializedEvent (the user manager tracks its own name and the
                                           friends list, the transfer manager requests a cycle)
@@ -329,7 +330,7 @@ class _Run:
             await simloop.advance(op[1])
             m = '.'
         elif kind == 'close':
-            await self.close()
+            await self.close(op[1] if len(op) > 1 else None)
             return
         elif kind == 'login':
             from aioslsk.events import SessionInitializedEvent
@@ -446,16 +447,18 @@ class _Run:
         self.obs.append(pre + self.observe())
         self.checkpoint(m == '.')
 
-    async def close(self):
+    async def close(self, reason=None):
         from aioslsk.events import ConnectionStateChangedEvent, SessionDestroyedEvent
-        from aioslsk.network.connection import ConnectionState, ServerConnection
+        from aioslsk.network.connection import CloseReason, ConnectionState, ServerConnection
         self.lines.append('close')
         conn = ServerConnection('1.1.1.1', 2242, self.net)
         self.online = False
         self.watch.clear()
+        event = ConnectionStateChangedEvent(conn, ConnectionState.CLOSED) if reason is None else \
+            ConnectionStateChangedEvent(conn, ConnectionState.CLOSED, CloseReason[reason])
 
         async def closed():
-            await self.bus.emit(ConnectionStateChangedEvent(conn, ConnectionState.CLOSED))
+            await self.bus.emit(event)
             if self.session is not None:                 # client.py:376-382, the last CLOSED listener
                 session, self.session = self.session, None
                 self.lost_sessions += 1
@@ -915,6 +918,13 @@ def _good(u):
     return ['gate', u, 'ok', 'exists', '.']
 
 
+REASONS = ['UNKNOWN', 'REQUESTED', 'READ_ERROR', 'WRITE_ERROR', 'TIMEOUT', 'EOF']
+
+
+def _close(rng):
+    return ['close'] if rng.random() < 0.5 else ['close', rng.choice(REASONS)]
+
+
 def _gen_random(rng: random.Random) -> list:
     nusers = rng.choice([1, 1, 2])
     ncalls = rng.randint(1, 8)
@@ -1094,7 +1104,7 @@ def _tmpl_session_loss(rng):
     ops += [_gate(rng, -1) if rng.random() < 0.3 else _good(-1) for _ in range(rng.randint(2, 5))]
     if rng.random() < 0.3:
         ops += [book.change(rng), ['cycle', _mod(rng)], _good(-1)]
-    ops.append(['close'])
+    ops.append(_close(rng))
     for _ in range(rng.randint(0, 3)):          # while there is no session
         y = rng.random()
         ops.append(book.change(rng) if y < 0.4 else ['cycle', _mod(rng)] if y < 0.6 else
@@ -1132,7 +1142,7 @@ def _tmpl_world_cycles(rng):
         ops.append(['cycle', rng.choice(['+', '.', '.', '!'])])
         ops.append(_gate(rng, -1))
         if rng.random() < 0.1:
-            ops.append(['close'])
+            ops.append(_close(rng))
     ops += [['cycle', '.'], _gate(rng, -1), _gate(rng, -1)]
     return ops, extra
 
@@ -1190,7 +1200,7 @@ def _gen_world_random(rng):
             ops.append(['login'])
             session = True
         else:
-            ops.append(['close'])
+            ops.append(_close(rng))
             session = False
     return ops, extra
 
@@ -1206,7 +1216,7 @@ def _tmpl_auto_loss(rng):
     y = rng.random()
     ops += [['quiesce']] if y < 0.6 else [['adv', rng.choice([1, 2, 5])], _gate(rng, -1), _gate(rng, -1)] if y < 0.85 else []
     for _loss in range(rng.choice([1, 1, 2])):
-        ops.append(['restart'] if rng.random() < 0.3 else ['close'])
+        ops.append(['restart'] if rng.random() < 0.3 else _close(rng))
         for _ in range(rng.randint(0, 3)):
             z = rng.random()
             ops.append(book.change(rng, None, None, 'qp') if z < 0.4 else ['adv', rng.choice([1, 5, 15, 25, 40])] if z < 0.7
@@ -1255,7 +1265,7 @@ def _gen_auto_random(rng):
             ops.append(['login'])
             session = True
         else:
-            ops.append(['restart'] if rng.random() < 0.3 else ['close'])
+            ops.append(['restart'] if rng.random() < 0.3 else _close(rng))
             session = False
     return ops, extra
 
